@@ -62,10 +62,24 @@ func vfLoad(path string) (*vfReplayFile, error) {
 	return &rf, nil
 }
 
-func vfNext(kinds ...string) string {
-	for vfPos < len(vfTape) && strings.HasPrefix(vfTape[vfPos].T, "rand.") {
-		vfPos++ // rand entries are consumed by the math/rand overlay
+// vfNextRand serves the math/rand overlay of the replay build (installed as rand.VerifNext):
+// the outcome recorded for the next random draw. Draws and nondet inputs share one cursor,
+// in program order.
+func vfNextRand(kind string) (int64, float64, bool) {
+	if vfPos >= len(vfTape) || vfTape[vfPos].T != kind {
+		return 0, 0, false
 	}
+	e := vfTape[vfPos]
+	vfPos++
+	if kind == "rand.f64" {
+		f, _ := strconv.ParseFloat(e.V, 64)
+		return 0, f, true
+	}
+	n, _ := strconv.ParseInt(e.V, 10, 64)
+	return n, 0, true
+}
+
+func vfNext(kinds ...string) string {
 	if vfPos >= len(vfTape) {
 		panic(vfStop{kind: "tape", label: "tape exhausted"})
 	}
